@@ -20,7 +20,12 @@ rm -f $demo
 if git apply $d/patch.diff 2>>$log; then echo "patch applies" >>$log; else echo "PATCH DOES NOT APPLY" >>$log; res=bad; fi
 go build ./... >>$log 2>&1 && echo "build ok" >>$log || { echo "BUILD FAILS" >>$log; res=bad; }
 go vet ./... >>$log 2>&1 && echo "vet ok" >>$log || { echo "VET FAILS" >>$log; res=bad; }
-if go test -vet=off -count=1 ./... > $d/suite.log 2>&1; then echo "suite passes with patch (good)" >>$log; else echo "SUITE FAILS with patch (bad)" >>$log; grep -v '^ok\|no test files' $d/suite.log | head -20 >>$log; res=bad; fi
+if go test -vet=off -count=1 ./... > $d/suite.log 2>&1; then echo "suite passes with patch (good)" >>$log; else
+  # timing-sensitive packages can flake when the machine is loaded: re-run only the failed packages, alone
+  failed=$(grep '^FAIL\s' $d/suite.log | awk '{print $2}' | grep blinklabs | sort -u)
+  if [ -n "$failed" ] && go test -vet=off -count=1 -p 1 $failed > $d/suite_retry.log 2>&1; then echo "suite passes with patch after re-running flaky packages alone: $failed (good)" >>$log;
+  else echo "SUITE FAILS with patch (bad)" >>$log; grep -v '^ok\|no test files' $d/suite.log | head -20 >>$log; res=bad; fi
+fi
 cp $d/demo_test.go $demo
 if go test -vet=off -count=1 -run "$runpat" ./$pkgdir/ > $d/demo_patched.log 2>&1; then echo "PATCHED demo: PASS (bad)" >>$log; res=bad; else echo "PATCHED demo: fails (good)" >>$log; tail -5 $d/demo_patched.log >>$log; fi
 cd /; git -C /repo worktree remove --force $wt >/dev/null 2>&1
